@@ -226,7 +226,7 @@ variable with `t` — to a model of all merged constraints without changing `v`;
 theorem part_marker_const {U : List Con} {Us : List (List Con)} {s : CSt} (h : CInv R RE E U Us s) (m : Nat)
     (hm : m < s.w.fes.length)
     (hsem : ∀ a, Models (Us.getD m []) a ↔ ∀ t ∈ s.c.solversFor (s.child m).variables, Models (Us.getD t []) a)
-    (hsat : ∀ t ∈ s.c.solverList, Satisfiable (Us.getD t []))
+    (hsat : ∀ t ∈ s.c.solversFor (s.child m).variables, Satisfiable (Us.getD t []))
     (fp : Frontend) (hp : PartOk (s.child m) fp) (hne : fp.variables ≠ [])
     (t : Nat) (ht : alGet? s.c.solvers (minVar fp.variables) = some t)
     (e : Exp) (he : RE e) (hi : Marked fp e.id) : ConstUnder (Us.getD t []) e := by
@@ -256,26 +256,28 @@ theorem part_marker_const {U : List Con} {Us : List (List Con)} {s : CSt} (h : C
   -- every model of `t` gives `v` the value `x`
   have key : ∀ a, Models (Us.getD t []) a → a v = x := by
     intro a ha
-    have hLnd : (s.c.solverList.filter fun j => j != t).Nodup := (solverList_nodup s.c).sublist List.filter_sublist
-    have hLmem : ∀ j, j ∈ (s.c.solverList.filter fun j => j != t) ↔ j ∈ s.c.solverList ∧ j ≠ t := by
+    have hinL : ∀ j ∈ s.c.solversFor (s.child m).variables, j ∈ s.c.solverList := by
+      intro j hj
+      obtain ⟨n, _, hn⟩ := (mem_solversFor _ _ _).mp hj
+      exact (mem_solverList' _ h.nodup j).mpr ⟨n, hn⟩
+    have hLnd : ((s.c.solversFor (s.child m).variables).filter fun j => j != t).Nodup :=
+      (solversFor_nodup s.c _).sublist List.filter_sublist
+    have hLmem : ∀ j, j ∈ ((s.c.solversFor (s.child m).variables).filter fun j => j != t) ↔
+        j ∈ s.c.solversFor (s.child m).variables ∧ j ≠ t := by
       intro j; simp [List.mem_filter]
     obtain ⟨a', ha', hk'⟩ := children_joint_model H.reg h (s.child t).variables a
-      (s.c.solverList.filter fun j => j != t) hLnd (fun j hj => ((hLmem j).mp hj).1)
-      (fun j hj u hu hkeep => h.disjoint ((hLmem j).mp hj).1 htl ((hLmem j).mp hj).2 u hu hkeep)
+      ((s.c.solversFor (s.child m).variables).filter fun j => j != t) hLnd (fun j hj => hinL j ((hLmem j).mp hj).1)
+      (fun j hj u hu hkeep => h.disjoint (hinL j ((hLmem j).mp hj).1) htl ((hLmem j).mp hj).2 u hu hkeep)
       (fun j hj => hsat j ((hLmem j).mp hj).1)
     have hta' : Models (s.child t).constraints a' := by
       refine models_of_agree ((h.kids.each t htlt).base.cons_wf H.reg) (fun u hu => ?_) ((h.child_models htlt a).mpr ha)
       obtain ⟨c', hc', huc⟩ := mem_varsOf_iff.mp hu
       exact (hk' u (h.child_vars htlt c' hc' u huc)).symm
-    have hall : ∀ j ∈ s.c.solverList, Models (Us.getD j []) a' := by
-      intro j hj
+    have hma' : Models (Us.getD m []) a' := by
+      refine (hsem a').mpr fun j hj => ?_
       by_cases hjt : j = t
       · subst hjt; exact (h.child_models htlt a').mp hta'
-      · exact (h.child_models (hltL j hj) a').mp (ha' j ((hLmem j).mpr ⟨hj, hjt⟩))
-    have hma' : Models (Us.getD m []) a' := by
-      refine (hsem a').mpr fun t' ht' => hall t' ?_
-      obtain ⟨n, _, hn⟩ := (mem_solversFor _ _ _).mp ht'
-      exact (mem_solverList' _ h.nodup t').mpr ⟨n, hn⟩
+      · exact (h.child_models (hltL j (hinL j hj)) a').mp (ha' j ((hLmem j).mpr ⟨hj, hjt⟩))
     have hc' : c.sem a' = true := (h.child_models hm a').mpr hma' c hcm
     rw [hcsem a'] at hc'
     have : a' v = x := by simpa using hc'
@@ -308,7 +310,7 @@ points to keeps the loop invariant -/
 theorem childUpdate_step {U : List Con} {Us Us1 : List (List Con)} {s s1 s' : CSt} (h : CInv R RE E U Us s) (m : Nat)
     (hm : m < s.w.fes.length)
     (hsem : ∀ a, Models (Us.getD m []) a ↔ ∀ t ∈ s.c.solversFor (s.child m).variables, Models (Us.getD t []) a)
-    (hsat : ∀ t ∈ s.c.solverList, Satisfiable (Us.getD t []))
+    (hsat : ∀ t ∈ s.c.solversFor (s.child m).variables, Satisfiable (Us.getD t []))
     (hlen01 : s.w.fes.length ≤ s1.w.fes.length)
     (hfr : ∀ i, i < s.w.fes.length → s1.child i = s.child i ∧ Us1.getD i [] = Us.getD i [])
     (hI : UpdInv R RE E Us1 s.w.fes.length s1 s') (p : Nat) (hp1 : s.w.fes.length ≤ p)
@@ -434,7 +436,7 @@ def ReabsorbReplaceKeeps (R : Con → Prop) (RE : Exp → Prop) (E : Env) : Prop
     (∀ v ∈ (s.child m).variables, ∃ t, alGet? s.c.solvers v = some t) →
     (∀ t ∈ s.c.solversFor (s.child m).variables, ∀ v ∈ (s.child t).variables, v ∈ (s.child m).variables) →
     (∀ a, Models (Us.getD m []) a ↔ ∀ t ∈ s.c.solversFor (s.child m).variables, Models (Us.getD t []) a) →
-    (∀ t ∈ s.c.solverList, Satisfiable (Us.getD t [])) → s.c.unsat = false →
+    (∀ t ∈ s.c.solversFor (s.child m).variables, Satisfiable (Us.getD t [])) → s.c.unsat = false →
     (s.child m).variables ≠ [] → alGet? s.c.solvers (minVar (s.child m).variables) ≠ some m → ReplaceTaken E m s →
     ∀ s', reabsorb E m s = (.ok (), s') → ∃ Us', CInv R RE E U Us' s'
 
